@@ -150,7 +150,10 @@ func finishCheck(prop, tier string, seed int64, spec PropSpec, results []jobResu
 					Values: v.Model, Choices: v.Choices, Known: known, Active: activeLabels(j, prop), Clock: j.Clock}
 				path := filepath.Join(replayDir, fmt.Sprintf("%04d.json", replayN))
 				writeJSON(path, rf)
-				ok, out := getReplayer(j.Dir).confirm(path, rf)
+				ok, out := false, "(native replay not applicable: the job depends on engine-side stubs)"
+				if !j.NoNative {
+					ok, out = getReplayer(j.Dir).confirm(path, rf)
+				}
 				lastOut = out
 				if ok {
 					rf.Confirm = "native"
